@@ -35,7 +35,7 @@ FIELDS = ("n_o", "n_w", "n_g", "S_or", "S_wc", "S_gc", "k_ro_max", "k_rw_max", "
 
 _unit = st.floats(0.0, 1.0, allow_nan=False)
 _expo = st.one_of(
-    st.sampled_from([1.0, 2.0, 3.0, 4.0, 6.0, 1.5, 2.5]),
+    st.sampled_from([1.0, 2.0, 3.0, 4.0, 6.0, 1.5, 2.5, 1.0 + 1e-9, 6.0 - 1e-9]),
     st.floats(1.0, 6.0, allow_nan=False),
 )
 _endp = st.one_of(st.sampled_from([0.0, 1.0, 0.5]), _unit)
@@ -45,7 +45,7 @@ _endp = st.one_of(st.sampled_from([0.0, 1.0, 0.5]), _unit)
 def params_valid(draw):
     raw = [draw(st.one_of(st.just(0.0), st.just(0.0), st.floats(0.001, 1.0))) for _ in range(3)]
     # scale so that the sum of residuals is < 1 (construction, not rejection)
-    total_target = draw(st.floats(0.0, 0.95))
+    total_target = draw(st.one_of(st.floats(0.0, 0.95), st.sampled_from([0.99, 0.999, 0.999999])))
     s = sum(raw)
     if s > 0:
         f = min(1.0, total_target / s)
@@ -62,7 +62,7 @@ def params_valid(draw):
 def sat_record(draw, p):
     """One [So, Sw, Sg] with sum 1 (to rounding); aimed at the residual boundaries."""
     res = [p["S_or"], p["S_wc"], p["S_gc"]]
-    kind = draw(st.sampled_from(["interior", "below", "at", "above", "vertex"]))
+    kind = draw(st.sampled_from(["interior", "below", "at", "above", "vertex", "hair-above", "hair-below"]))
     i = draw(st.integers(0, 2))
     if kind == "vertex":
         s = [0.0, 0.0, 0.0]
@@ -74,7 +74,15 @@ def sat_record(draw, p):
         s = [a, b, max(0.0, 1.0 - a - b)]
         k = draw(st.integers(0, 2))
         return s[k:] + s[:k]
-    if kind == "below":
+    if kind in ("hair-above", "hair-below"):
+        # a hair on either side of the residual: one ulp, 1e-12, 1e-9, 1e-6, 1e-4 away (tolerance bands would show)
+        d = draw(st.sampled_from([0.0, 1e-12, 1e-9, 1e-6, 1e-4]))
+        si = res[i] + d if kind == "hair-above" else res[i] - d
+        if d == 0.0:
+            import math
+
+            si = math.nextafter(res[i], 2.0 if kind == "hair-above" else -1.0)
+    elif kind == "below":
         si = res[i] * draw(_unit)
     elif kind == "at":
         si = res[i]
